@@ -92,6 +92,14 @@ def parse_mir(text):
     lines = text.split("\n")
     for lineno, ln in enumerate(lines, 1):
         if cur is None:
+            if ln.startswith("const ") and ln.rstrip().endswith("= {") and "::promoted[" in ln:
+                # promoted constant: a parameterless body that computes the constant
+                hdr = ln[6:].rstrip()[:-3].rstrip()
+                k = hdr.index("]: ") + 1
+                cur = Fn(hdr[:k], [], hdr[k + 2:].strip(), lineno)
+                fns.setdefault(cur.name, []).append(cur)
+                blk = None
+                continue
             if ln.startswith("fn ") and ln.rstrip().endswith("{"):
                 hdr = ln[3:].rstrip()[:-1].rstrip()
                 depth = 0
